@@ -30,6 +30,13 @@ def decode_mpg(data):
     return out
 
 
+def pdu1_pf(rng):
+    """a PDU1 format byte: the whole range 0..239 counts, its two ends in particular (239 = Proprietary A is the last PDU1 value)"""
+    if rng.random() < 0.2:
+        return rng.choice([239, 239, 238, 0, 1])
+    return rng.randrange(0x50, 0xE0)
+
+
 def gen(rng, k):
     sa = 0x20
     dests = [255] + rng.sample([0x30, 0x31, 0x32], rng.randint(0, 2))
@@ -47,9 +54,9 @@ def gen(rng, k):
         d = rng.choice(dests)
         ff = FEFF if rng.random() < 0.8 else FBFF
         if d == 255:
-            pf, ps = (rng.randint(240, 255), rng.randrange(256)) if rng.random() < 0.6 else (rng.randrange(0x50, 0xE0), 255)
+            pf, ps = (rng.randint(240, 255), rng.randrange(256)) if rng.random() < 0.6 else (pdu1_pf(rng), 255)
         else:
-            pf, ps = rng.randrange(0x50, 0xE0), d
+            pf, ps = pdu1_pf(rng), d
         if ff == FBFF and d != 255:
             ff = FEFF
         tl = rng.choice([0, burst_limit, burst_limit, rng.choice([1000, 5000, 20000, 100000, 200000])])
